@@ -40,24 +40,6 @@ Definition sem (star : bool) (nb : Z) (l : sibs) (vs : list Z) (cur : Z) (pre : 
 (* every stored word is strictly increasing *)
 Definition keys_sorted (l : sibs) : Prop := forall t, find_val t l <> None -> ssorted t.
 
-Lemma key_cons x w c0 r t' : wf ((x, w, Node c0) :: r) -> t' <> [] ->
-  (find_val t' ((x, w, Node c0) :: r) <> None <->
-   t' = [x] \/ (exists t'', t'' <> [] /\ t' = x :: t'' /\ find_val t'' c0 <> None) \/ find_val t' r <> None).
-Proof.
-  intros Hwf Ht. apply wf_cons in Hwf as (Hlb & Hc & Hr). destruct t' as [|z tt]; [congruence|]. split.
-  - intro H. destruct (Z.compare_spec z x) as [E|E|E].
-    + subst z. destruct tt as [|y tt']; [left; auto|]. right; left.
-      rewrite find_val_cons_eq_deep in H. exists (y :: tt'). repeat split; auto; congruence.
-    + rewrite find_val_cons_lt in H by auto. congruence.
-    + rewrite find_val_cons_gt in H by auto. right; right; auto.
-  - intros [H|[(t'' & Hne & Heq & Hf)|H]].
-    + inversion H; subst. rewrite find_val_cons_eq_one. congruence.
-    + inversion Heq; subst. destruct t'' as [|y t3]; [congruence|]. rewrite find_val_cons_eq_deep. exact Hf.
-    + assert (x < z).
-      { apply lb_sibs_get_some with (r := r); auto. apply find_val_head_get with (t := tt). exact H. }
-      rewrite find_val_cons_gt by auto. exact H.
-Qed.
-
 Lemma keys_sorted_child x w c0 r : wf ((x, w, Node c0) :: r) -> keys_sorted ((x, w, Node c0) :: r) -> keys_sorted c0.
 Proof.
   intros Hwf Hk t Hf. destruct t as [|y t']; [constructor|].
@@ -263,6 +245,7 @@ Proof.
   - rewrite spec_prune_filt_lookup. destruct (lookup K t) eqn:E; [|congruence]. intros _. apply Hk. congruence.
   - rewrite spec_prune_dim_lookup. destruct (_ <=? _); [apply Hk | congruence].
   - cbn. congruence.
+  - apply Hk.
   - apply Hk.
 Qed.
 Lemma spec_run_KS : forall ops K, KS K -> forallb refined_op ops = true -> KS (fold_left spec_step ops K).
